@@ -281,6 +281,8 @@ def render_fragment(frag, descs, rng, style=None, marks=None):
             (v,) = [x for x in e if x != u]
             if e in open_marker:
                 m, form = open_marker.pop(e)
+                if toks and toks[-1]["k"] == "R" and toks[-1]["v"] == "%":
+                    form = "%"
                 toks.append(render.ftok("R", form, m))
                 free_markers.append(m)
                 free_markers.sort()
@@ -290,6 +292,8 @@ def render_fragment(frag, descs, rng, style=None, marks=None):
                 sym = bond_symbol(u, v)
                 if sym:
                     toks.append(render.ftok("B", sym))
+                elif toks and toks[-1]["k"] == "R" and toks[-1]["v"] == "%":
+                    form = "%"          # a digit directly behind %nn would be read as part of it
                 toks.append(render.ftok("R", form, m))
                 open_marker[e] = (m, form)
         if not lead and not before:
@@ -360,6 +364,8 @@ def render_base(bg, rng, names):
         for e in rings:
             if e in open_marker:
                 m, form = open_marker.pop(e)
+                if toks and toks[-1]["k"] == "R" and toks[-1]["v"] == "%":
+                    form = "%"
                 toks.append(render.tok("R", form, m))
                 free.append(m)
                 free.sort()
@@ -372,6 +378,8 @@ def render_base(bg, rng, names):
                     toks.append(render.tok("B", s))
                 elif rng.random() < 0.1:
                     toks.append(render.tok("B", "-"))
+                elif toks and toks[-1]["k"] == "R" and toks[-1]["v"] == "%":
+                    form = "%"
                 toks.append(render.tok("R", form, m))
                 open_marker[e] = (m, form)
         ks = kids[u]
